@@ -23,8 +23,10 @@ open ElaVerif.History ElaVerif.Sites
     66 ProposalManager.terminatedProposal#0 (proposalmanager.go:330) · 67,68 transferRegisteredState#0,#1 (:359,:373) ·
     74 dealProposal#4 (:442) · 75,77 transferCRAgreedState#0,#2 (:466,:491) · 80 registerProposal#0 (:661) ·
     85 proposalTracking#0 (:841) · 87 State.updateCR#0 (state.go:312) · 88 State.unregisterCR#0 (:326) ·
-    89,90 State.returnDeposit#0,#1 (:371,:379) -/
-def expectedUnclassified : List Nat := [0, 3, 22, 24, 48, 66, 67, 68, 74, 75, 77, 80, 85, 87, 88, 89, 90]
+    89,90 State.returnDeposit#0,#1 (:371,:379) · since captures must read the restored location:
+    23 Committee.processCRCRealWithdraw#0 (committee.go:1111) · 43 Committee.processCurrentMembersDepositInfo#0 (:1721) ·
+    65 ProposalManager.abortProposal#0 (proposalmanager.go:311) · 70 dealProposal#0 (:403) · 84 proposalWithdraw#0 (:777) -/
+def expectedUnclassified : List Nat := [0, 3, 22, 23, 24, 43, 48, 65, 66, 67, 68, 70, 74, 75, 77, 80, 84, 85, 87, 88, 89, 90]
 
 /-- T-gen, total over the source: every `History.Append` site of cr/state is syntactically well
     paired (no reviewed callee pairs at all) except exactly the listed ones. -/
